@@ -126,6 +126,44 @@ class C13Monitor(X.Monitor):
         if score.tracking_scores:
             check_clear_scores(ctx, lane, index, score.tracking_scores, [[]] + [fr.object_results for fr in frames], gt_counts,
                                labels, policy, "scene", prop="C13", cp="scene_equals_pool:")
+        # the statement, literally: the scene score equals the score computed (with the library's own metric classes) from
+        # the pooled per-frame object results -- pooled here by the harness, in delivery order, each frame's results in
+        # the order the frame result holds them
+        if has_metrics and frames:
+            try:
+                from perception_eval.evaluation.metrics import MetricsScore
+
+                tls = list(lane.config.target_labels)
+                pooled = {l: [[]] for l in tls}
+                num_gt = {l: 0 for l in tls}
+                for fr in frames:
+                    by_label = {l: [] for l in pooled}
+                    for r in fr.object_results:
+                        b = OS.bucket_of(r, labels)
+                        for l in by_label:
+                            if l.value == b:
+                                by_label[l].append(r)
+                    for l in pooled:
+                        pooled[l].append(by_label[l])
+                    for g in fr.frame_ground_truth.objects:
+                        for l in num_gt:
+                            if l.value == V.label_of(g):
+                                num_gt[l] += 1
+                mine = MetricsScore(config=lane.config.metrics_config, used_frame=[int(fr.frame_name) for fr in frames])
+                if lane.config.metrics_config.detection_config is not None:
+                    mine.evaluate_detection(pooled, num_gt)
+                if lane.config.metrics_config.tracking_config is not None:
+                    mine.evaluate_tracking(pooled, num_gt)
+                d = D.diff(D.metrics_digest(score), D.metrics_digest(mine), 1e-9)
+                if d:
+                    ctx.violate("C13", "scene_equals_pool", "the scene score differs from the library's own metrics evaluated on the pooled frame results",
+                                {"diff": d[:300], "frames": len(frames)}, index)
+                ctx.probe("c13_pool_recomputed")
+            except Exception as e:  # noqa
+                hit = X.innermost_repo_frame(__import__("traceback").extract_tb(e.__traceback__), ctx.R["src"])
+                if hit is None:
+                    raise
+                ctx.violate("C13", "scene_equals_pool", "metrics on the pooled frame results raised %s in %s" % (type(e).__name__, hit), {}, index)
         if len(frames) >= 2:
             ctx.probe("c13_pooled_scene")
         # one_frame_scene
@@ -521,7 +559,8 @@ def _step_margin(ctx, lane, st):
                 if val is None:
                     continue
                 for t in thrs:
-                    m = min(m, abs(val - t) / max(1.0, abs(t)))
+                    if not math.isinf(t):
+                        m = min(m, abs(val - t) / max(1.0, abs(t)))
             # nearest-side ambiguity of the plane distance: 2nd vs 3rd closest ground-truth corner
             gp = V.ego_pos(g, st.ego_ref)
             yaw = rm.q_yaw(V.quat_of(g)) - (st.ego_ref[3] if V.frame_of(g) != "base_link" else 0.0)
